@@ -94,7 +94,7 @@ func (u *Unit) regionOf(st *State, blk *Term) *Region {
 	if len(alts) == 0 {
 		r.C = c
 	} else {
-		r.C = MkArr(func(i *Term) *Term {
+		r.C = u.mkArr(func(i *Term) *Term {
 			v := Select(c, i)
 			for j := len(alts) - 1; j >= 0; j-- {
 				v = Ite(alts[j].cond, Select(alts[j].c, i), v)
@@ -127,7 +127,7 @@ func (u *Unit) writeBytes(st *State, fn string, blk *Term, lo, n *Term, src func
 	hi := u.name(Add(lo, n), "hi")
 	oldC := r.C
 	in := func(j *Term) *Term { return And(Le(lo, j), Lt(j, hi)) }
-	u.setContents(st, r.Blk.S, MkArr(func(j *Term) *Term { return Ite(in(j), src(j), Select(oldC, j)) }))
+	u.setContents(st, r.Blk.S, u.mkArr(func(j *Term) *Term { return Ite(in(j), src(j), Select(oldC, j)) }))
 	for _, e := range st.edges[r.Blk.S] {
 		q := st.regions[e.Other]
 		if q == nil {
@@ -137,7 +137,7 @@ func (u *Unit) writeBytes(st *State, fn string, blk *Term, lo, n *Term, src func
 			u.frameWriteCond(st, q, e.Cond, what)
 		}
 		qC, cond := q.C, e.Cond
-		u.setContents(st, e.Other, MkArr(func(j *Term) *Term { return Ite(And(cond, in(j)), src(j), Select(qC, j)) }))
+		u.setContents(st, e.Other, u.mkArr(func(j *Term) *Term { return Ite(And(cond, in(j)), src(j), Select(qC, j)) }))
 	}
 }
 
